@@ -50,6 +50,7 @@ def start_line_coverage():
     root = os.path.join(os.path.realpath(core.REPO_DIR), "jsonrpclib") + os.sep
     seen = set()
     branches = set()
+    arcs_seen = {}
 
     def on_line(code, line):
         fn = code.co_filename
@@ -67,7 +68,11 @@ def start_line_coverage():
                     for off in (src, dst):
                         if start <= off < end:
                             lines[off] = ln
-            branches.add((os.path.basename(fn), code.co_qualname, src, lines.get(src), lines.get(dst)))
+            branches.add((os.path.basename(fn), code.co_qualname, src, lines.get(src), "%s@%d" % (lines.get(dst), dst)))
+            # DISABLE silences the instruction, not the arc: keep listening until both directions were seen
+            dsts = arcs_seen.setdefault((code, src), set())
+            dsts.add(dst)
+            return mon.DISABLE if len(dsts) >= 2 else None
         return mon.DISABLE
 
     mon.register_callback(tool, mon.events.LINE, on_line)
